@@ -117,6 +117,8 @@ def run(ctx, model=None):
         check_case(ctx, gen.parallel_dead_game(rng), model)
     for k in range(3 if ctx.quick() else 20):
         check_case(ctx, gen.slow_reward_game(rng), model, limit=60.0)
+    analysis.optimized_interpreter(ctx, [gen.dead_shape_game(rng, PR, pat) for pat in gen.all_patterns(3)][:10] +
+                                   [gen.stopping_game(rng, dead_frac=0.5) for _ in range(6)], "bellman-consistency", fields=[2])
     for k in range(8 if ctx.quick() else 100):
         check_case(ctx, gen.tiny_best_game(rng), model)
         check_case(ctx, gen.tiny_dead_decimal_game(rng), model)
